@@ -2,7 +2,8 @@
 // C12 map semantics); one canonical result line per case (same format as ocaml/c11_driver.ml).
 //   H <cap> <ops>            a history on a fresh store (reads are reported; final files dumped)
 //   L <now> <snap|-> <log> <cuts> <cont>   reopen images of a log cut at the given offsets
-//   J <ops>                  JsonFileStore flush discipline (no truncating open of the store file)
+//   J <ops>                  JsonFileStore: reads, the durable effects of every flush in order (fx=), every crash image
+//                            of every flush reopened (img=), no truncating open of the store file (trunc=)
 #include <algorithm>
 #include <atomic>
 #include <chrono>
@@ -20,6 +21,7 @@
 #include <sstream>
 #include <string>
 #include <unistd.h>
+#include <sys/uio.h>
 #include <unordered_map>
 #include <vector>
 #include <thread>
@@ -67,6 +69,94 @@ extern "C" FILE *fopen(const char *path, const char *mode)
   static Fn real = reinterpret_cast<Fn>(dlsym(RTLD_NEXT, "fopen"));
   noteOpen(path, mode);
   return real(path, mode);
+}
+
+// ---- crash recorder for JsonFileStore flushes: while armed, every write()/writev()/rename() that touches the
+// store's directory is preceded by a snapshot of that directory (the disk a process killed at that instant leaves
+// behind); a write additionally yields the image in which only the first half of its bytes reached the file.
+struct CrashImage
+{
+  std::map<std::string, std::string> files;
+  std::string at;
+};
+static std::string g_recDir;               // non-empty = armed
+static std::vector<CrashImage> g_images;
+static std::string g_fx;                   // durable effects in order: W (write into the directory), R (rename)
+static thread_local bool g_inRec = false;
+static std::string slurp(const std::string &p)
+{
+  std::string r;
+  FILE *f = ::fopen(p.c_str(), "rb");
+  if (!f) return r;
+  char buf[65536];
+  size_t n;
+  while ((n = fread(buf, 1, sizeof buf, f)) > 0) r.append(buf, n);
+  fclose(f);
+  return r;
+}
+static CrashImage snapRecDir(const std::string &at)
+{
+  CrashImage im;
+  im.at = at;
+  std::error_code ec;
+  for (auto &e : fs::directory_iterator(g_recDir, ec))
+    if (e.is_regular_file(ec)) im.files[e.path().filename().string()] = slurp(e.path().string());
+  return im;
+}
+static std::string fdPath(int fd)
+{
+  char link[64], buf[4096];
+  snprintf(link, sizeof link, "/proc/self/fd/%d", fd);
+  ssize_t n = readlink(link, buf, sizeof buf - 1);
+  return n > 0 ? std::string(buf, static_cast<size_t>(n)) : std::string();
+}
+static void noteWrite(int fd, const char *data, size_t n)
+{
+  if (g_recDir.empty() || g_inRec || n == 0) return;
+  std::string p = fdPath(fd);
+  if (p.compare(0, g_recDir.size() + 1, g_recDir + "/") != 0) return;
+  g_inRec = true;
+  std::string name = p.substr(g_recDir.size() + 1);
+  CrashImage before = snapRecDir("before-write:" + name);
+  CrashImage mid = before;
+  mid.at = "mid-write:" + name;
+  mid.files[name] += std::string(data, n / 2);
+  g_images.push_back(std::move(before));
+  g_images.push_back(std::move(mid));
+  if (g_fx.empty() || g_fx.back() != 'W') g_fx.push_back('W');
+  g_inRec = false;
+}
+extern "C" ssize_t write(int fd, const void *buf, size_t n)
+{
+  using Fn = ssize_t (*)(int, const void *, size_t);
+  static Fn real = reinterpret_cast<Fn>(dlsym(RTLD_NEXT, "write"));
+  noteWrite(fd, static_cast<const char *>(buf), n);
+  return real(fd, buf, n);
+}
+extern "C" ssize_t writev(int fd, const struct iovec *iov, int cnt)
+{
+  using Fn = ssize_t (*)(int, const struct iovec *, int);
+  static Fn real = reinterpret_cast<Fn>(dlsym(RTLD_NEXT, "writev"));
+  if (!g_recDir.empty() && !g_inRec)
+  {
+    std::string flat;
+    for (int i = 0; i < cnt; ++i) flat.append(static_cast<const char *>(iov[i].iov_base), iov[i].iov_len);
+    noteWrite(fd, flat.data(), flat.size());
+  }
+  return real(fd, iov, cnt);
+}
+extern "C" int rename(const char *from, const char *to)
+{
+  using Fn = int (*)(const char *, const char *);
+  static Fn real = reinterpret_cast<Fn>(dlsym(RTLD_NEXT, "rename"));
+  if (!g_recDir.empty() && !g_inRec && from && std::string(from).compare(0, g_recDir.size() + 1, g_recDir + "/") == 0)
+  {
+    g_inRec = true;
+    g_images.push_back(snapRecDir(std::string("before-rename:") + (from + g_recDir.size() + 1)));
+    g_fx.push_back('R');
+    g_inRec = false;
+  }
+  return real(from, to);
 }
 
 static std::vector<std::string> split(const std::string &s, char c)
@@ -333,8 +423,73 @@ static std::string runJson(const std::vector<std::string> &ops)
       if (o.first == path) truncAfterExists = true; // the store file itself opened with a truncating mode
     g_opens.clear();
   };
+  // every flush (explicit, or the destructor's) runs under the crash recorder; each recorded disk image is then
+  // reopened by a fresh JsonFileStore and must show the contents of the last completed flush or of this flush
+  std::string fxAll, imgVerdict = "ok";
+  std::string lastFlushed;        // dump of the contents of the last completed flush
+  bool anyFlushed = false;
+  std::unique_ptr<JsonFileStore> st;
+  auto dumpStore = [](JsonFileStore &js)
   {
-    auto st = std::make_unique<JsonFileStore>(path);
+    std::vector<std::string> items;
+    std::vector<std::string> ks;
+    {
+      std::lock_guard<std::mutex> lk(js._mutex);
+      if (js._store.isObject())
+        for (auto &kv : js._store.getObject()) ks.push_back(kv.first);
+    }
+    for (auto &k : ks)
+    {
+      auto v = js.get(k);
+      items.push_back(hex(k) + "=" + (v ? hex(*v) : std::string("?")));
+    }
+    std::sort(items.begin(), items.end());
+    std::string r;
+    for (std::size_t i = 0; i < items.size(); ++i) r += (i ? "," : "") + items[i];
+    return r.empty() ? std::string("-") : r;
+  };
+  auto recordedFlush = [&](const std::function<void()> &doFlush)
+  {
+    std::string inProgress = dumpStore(*st);
+    const bool wasDirty = st->_dirty;
+    g_images.clear();
+    g_fx.clear();
+    g_recDir = dir;
+    doFlush();
+    g_recDir.clear();
+    if (!g_fx.empty())
+    {
+      g_inRec = true;
+      // the image after the last effect
+      g_recDir = dir; g_images.push_back(snapRecDir("after")); g_recDir.clear();
+      g_inRec = false;
+    }
+    std::string fx;
+    for (char c : g_fx) fx += std::string(fx.empty() ? "" : ".") + c;
+    if (!fx.empty()) fxAll += (fxAll.empty() ? "" : ",") + fx;
+    for (auto &im : g_images)
+    {
+      std::string d2 = tmpDir();
+      for (auto &f : im.files) writeFile(d2 + "/" + f.first, f.second);
+      std::string got;
+      try
+      {
+        JsonFileStore re(d2 + "/store.json");
+        got = dumpStore(re);
+      }
+      catch (const std::exception &) { got = "OPENFAIL"; }
+      std::error_code ec2;
+      fs::remove_all(d2, ec2);
+      const bool okOld = anyFlushed ? got == lastFlushed : got == "-";
+      if (!okOld && got != inProgress && imgVerdict == "ok")
+        imgVerdict = "BAD@" + im.at + ":reopened=" + got + ":last-completed=" + (anyFlushed ? lastFlushed : std::string("none")) +
+                     ":in-progress=" + inProgress;
+    }
+    if (wasDirty && !g_fx.empty()) { lastFlushed = inProgress; anyFlushed = true; }
+    g_images.clear();
+  };
+  {
+    st = std::make_unique<JsonFileStore>(path);
     for (auto &op : ops)
     {
       auto p = split(op, ':');
@@ -347,12 +502,12 @@ static std::string runJson(const std::vector<std::string> &ops)
           std::lock_guard<std::mutex> lk(g_openM);
           g_opens.clear();
         }
-        st->flush();
+        recordedFlush([&]() { st->flush(); });
         if (existed) checkOpens();
       }
       else if (p[0] == "o")
       {
-        st.reset();
+        recordedFlush([&]() { st.reset(); });          // the destructor flushes
         st = std::make_unique<JsonFileStore>(path);
       }
       else if (p[0] == "g")
@@ -361,8 +516,9 @@ static std::string runJson(const std::vector<std::string> &ops)
         out << (v ? "g:" + hex(*v) : std::string("g:!")) << " ";
       }
     }
+    recordedFlush([&]() { st.reset(); });
   }
-  out << "trunc=" << (truncAfterExists ? 1 : 0);
+  out << "fx=" << (fxAll.empty() ? "-" : fxAll) << " img=" << imgVerdict << " trunc=" << (truncAfterExists ? 1 : 0);
   std::error_code ec;
   fs::remove_all(dir, ec);
   return out.str();
